@@ -306,6 +306,19 @@ def run_special_keys(chk, spec):
 			else:
 				L, R = L[[False] * len(L)], Table({"r": [1, 2, 5], "rid": [10, 20, 40]})
 			J.check_join(chk, chk.pid, "sampled", how, L, R, ["k"], ["r"], key_mode=spec["key_mode"], expect=spec["expect"], label=variant, sig=("special", variant, how, spec["expect"]))
+		elif variant == "none-keys-none-payload":
+			# None meets None: the matched right row may consist of None only (a key-only right table, a payload of gaps) - it is a partner all the same
+			lk = [rng.choice([None, 1, 2]) for _ in range(spec["nl"] + 1)]
+			lk[0] = None
+			L = Table({"k": lk, "lid": list(range(len(lk)))})
+			form = spec["nkeys"] % 3
+			if form == 0:
+				R = Table({"r": [None, 2, 5]})
+			elif form == 1:
+				R = Table({"r": [None, 2, None], "p": [None, 7, None]})
+			else:
+				R = Table({"r": [None, 1], "p": [None, None], "q": [None, None]})
+			J.check_join(chk, chk.pid, "sampled", how, L, R, ["k"], ["r"], key_mode=spec["key_mode"], expect="many_to_many", label=variant, sig=("special", variant, how, form))
 		elif variant == "separator-strings":
 			cells_ = ["x", "y", "z", "x\x1fy", "y\x1fz", "", "\x1f", "x\x1f", "\x1fz", "x\x00y", "x\ty"]
 			nk = spec["nkeys"]
@@ -326,7 +339,7 @@ RUNNERS["special_keys"] = run_special_keys
 
 def special_cases(chk, hows, count):
 	rng = chk.rng
-	variants = ["date-vs-datetime", "left-promoted", "both-promoted", "right-emptied-by-mask", "right-emptied-by-slice", "left-emptied-by-mask", "separator-strings", "separator-strings"]
+	variants = ["none-keys-none-payload", "none-keys-none-payload", "date-vs-datetime", "left-promoted", "both-promoted", "right-emptied-by-mask", "right-emptied-by-slice", "left-emptied-by-mask", "separator-strings", "separator-strings"]
 	for how in hows:
 		for variant in variants:
 			for _ in range(count):
